@@ -55,6 +55,20 @@ type Stats struct {
 	Pruned     int            `json:"pruned"`
 }
 
+// keep retains at most two witnesses per violation key, but every key: a flood of one kind of
+// violation (a known finding, say) must never displace a different one.
+func (s *Stats) keep(v Violation) {
+	n := 0
+	for _, w := range s.Violations {
+		if w.Key == v.Key {
+			n++
+		}
+	}
+	if n < 2 {
+		s.Violations = append(s.Violations, v)
+	}
+}
+
 func NewStats() *Stats { return &Stats{Outcomes: map[string]int{}} }
 
 // Merge adds o into s.
@@ -65,9 +79,7 @@ func (s *Stats) Merge(o *Stats) {
 		s.Outcomes[k] += v
 	}
 	for _, v := range o.Violations {
-		if len(s.Violations) < 50 {
-			s.Violations = append(s.Violations, v)
-		}
+		s.keep(v)
 	}
 	s.ViolCount += o.ViolCount
 	s.Pruned += o.Pruned
@@ -192,9 +204,7 @@ func record(st *Stats, o Outcome) {
 		if v.Choices == nil {
 			v.Choices = choicesOf(o.Trace)
 		}
-		if len(st.Violations) < 50 {
-			st.Violations = append(st.Violations, v)
-		}
+		st.keep(v)
 	}
 }
 
